@@ -31,6 +31,7 @@ def run(ctx):
     E.rule_writes_inside_frame(res, "C07-R6", m)
     E.rule_state_reset(res, "C07-R7", "C07-R7", m)
     E.rule_free_count_writers(res, "C07-R1", m)
+    E.rule_limits_taken_unchanged(res, "C07-R7", m)
     res.floor("C07-R7", 15)
     res.floor("C07-R1", 5)
     res.floor("C07-R4", 4)
